@@ -190,6 +190,18 @@ func (e *emitter) fromBytes(in []byte) {
 	fmt.Fprintf(e.w, "FROMBYTES %s %s\n", hx(in), res)
 }
 
+func (e *emitter) compFromBytes(in []byte) {
+	e.count("CFB")
+	res := guard(func() string {
+		c, err := enc.ComponentFromBytes(in)
+		if err != nil {
+			return "err"
+		}
+		return "ok=" + compStr(c)
+	})
+	fmt.Fprintf(e.w, "CFB %s %s\n", hx(in), res)
+}
+
 func (e *emitter) hash(a enc.Name) {
 	e.count("HASH")
 	res := guard(func() string {
@@ -379,6 +391,8 @@ func (e *emitter) reexec(line string) bool {
 		e.brt(parseName(f[1]))
 	case "FROMBYTES":
 		e.fromBytes(unhx(f[1]))
+	case "CFB":
+		e.compFromBytes(unhx(f[1]))
 	case "HASH":
 		e.hash(parseName(f[1]))
 	case "STR":
@@ -882,6 +896,10 @@ func runGenerated(e *emitter, g *gen, ncases int, thorough bool) {
 		e.triple(a, b, c)
 		if len(a) > 0 && len(b) > 0 {
 			e.comp(a[g.r.Intn(len(a))], b[g.r.Intn(len(b))])
+			cb := a[g.r.Intn(len(a))].Bytes()
+			e.compFromBytes(cb)
+			e.compFromBytes(cb[:g.r.Intn(len(cb))])
+			e.compFromBytes(append(cb, byte(g.r.Intn(256))))
 		}
 		e.nameBytes(a)
 		e.brt(a)
